@@ -12,9 +12,14 @@ macro_rules | `(tactic| pl_prim) => `(tactic| with_reducible refine wp_mono ((mn
 macro_rules | `(tactic| pl_prim) => `(tactic| with_reducible refine wp_mono ((mn_all _).a _) ?_ (fun _ _ => trivial))
 macro_rules | `(tactic| pl_prim) => `(tactic| with_reducible refine wp_mono ((mn_allL _).l _) ?_ (fun _ _ => trivial))
 
+/-- an integer or float literal -/
+def Node.isLit : Node → Bool
+  | .int _ | .float _ => true
+  | _ => false
+
 mutual
-/-- the trees the simulation is proved for: no unary minus (its
-folding reads code bytes back); listener bytes of fields as the parser produces them (`≤ 6`) -/
+/-- the trees the simulation is proved for: a unary minus only directly on an integer or float literal (its constant
+folding reads code bytes back; the literal just emitted is read back correctly by either manager); listener bytes of fields as the parser produces them (`≤ 6`) -/
 def Node.plain : Node → Bool
   | .next n => n.plain
   | .list xs => xs.plain
@@ -28,7 +33,7 @@ def Node.plain : Node → Bool
   | .cmd _ _ ps | .cmdx _ _ ps => ps.plain
   | .field _ _ _ _ l => l.plain && (match l with | .listener b => decide (b ≤ 6) | _ => true)
   | .vec a b c => a.plain && b.plain && c.plain
-  | .f1 op x => decide (op ≠ OP_UN_MINUS) && x.plain
+  | .f1 op x => (decide (op ≠ OP_UN_MINUS) || x.isLit) && x.plain
   | .f2 _ a b => a.plain && b.plain
   | .not_ x => x.plain
   | .idx a i => a.plain && i.plain
@@ -118,9 +123,10 @@ theorem resize_rel {L : Nat} {c p : St} (h : Rel L c p) (ls : LabelSet) (n : Nat
 
 theorem Rel.congrC {L : Nat} {c c' p : St} (h : Rel L c p) (h1 : c'.counting = c.counting) (h2 : c'.prev = c.prev)
     (h3 : c'.prevPos = c.prevPos) (h4 : pl c' = pl c) (h5 : c'.nBrk = c.nBrk) (h6 : c'.nCont = c.nCont)
-    (h7 : c'.canBreak = c.canBreak) (h8 : c'.canContinue = c.canContinue) (h9 : c'.switchDepth = c.switchDepth) :
+    (h7 : c'.canBreak = c.canBreak) (h8 : c'.canContinue = c.canContinue) (h9 : c'.switchDepth = c.switchDepth)
+    (hbk : BOk c → BOk c' := by exact fun hb => ⟨hb.rsize, hb.rcur, hb.bsize⟩) :
     Rel L c' p :=
-  ⟨h1.trans h.cc, h.pc, h.w.congr h2 h3 rfl rfl, h4.trans h.gross, h.pos, h.len, h5.trans h.nb, h6.trans h.nc,
+  ⟨h1.trans h.cc, h.pc, h.w.congr h2 h3 rfl rfl hbk, h4.trans h.gross, h.pos, h.len, h5.trans h.nb, h6.trans h.nc,
     h7.trans h.cb, h8.trans h.cct, h9.trans h.sd⟩
 
 theorem J2_addLabel {L : Nat} {c p : St} (h : Rel L c p) (i : Nat) (pr cl1 cl2 : Bool) :
